@@ -193,6 +193,21 @@ func (e *Engine) strBinop(op token.Token, x, y Value) Value {
 				}
 			case xop && yok && ys == "", yop && xok && xs == "":
 				r = false
+			case xop && xo.Tag == "doc" && yok, yop && yo.Tag == "doc" && xok:
+				// document bytes against concrete bytes: compared as JSON values
+				var d *Doc
+				var raw string
+				if xop {
+					d, raw = xo.Payload.(*Doc), ys
+				} else {
+					d, raw = yo.Payload.(*Doc), xs
+				}
+				bs, _ := toByteStr(raw)
+				if pd, err := e.parseConcreteDoc(bs.B); err == nil {
+					r = e.docEq(d, pd)
+				} else {
+					r = false
+				}
 			default:
 				panic(engineErr("comparison of opaque string with %s", describeValue(y)))
 			}
